@@ -176,7 +176,7 @@ pub fn child_case(c: &J) -> J {
       }
     },
   };
-  json!({"load": load_class, "build": build_class, "inv": inv, "panics": panics})
+  json!({"load": load_class, "build": build_class, "inv": inv, "panics": panics, "count": c["count"]})
 }
 
 struct Model {
@@ -316,12 +316,10 @@ pub fn check(mut ctx: Ctx, replay: Option<J>) -> ! {
   let trees_path = tlc.write_ndjson("c12_trees.ndjson", &trees);
   let trees_env = trees_path.to_string_lossy().to_string();
   let mut recs: Vec<J> = vec![];
-  let mut texts: Vec<String> = vec![];
   if let Some(r) = &replay {
-    let rec = r["case"]["record"].clone();
-    texts.push(rec["xml"].as_str().unwrap_or("").to_string());
-    let mut rec = rec;
+    let mut rec = r["case"]["record"].clone();
     rec["src"] = json!("bytes");
+    rec["seed"] = json!(0);
     recs.push(rec);
   } else {
     let gen = tlc.run(Run::new("Gen_C12", if quick { "Gen_C12.cfg" } else { "Gen_C12_pairs.cfg" }).env("TREES", &trees_env).timeout(3000));
@@ -334,72 +332,83 @@ pub fn check(mut ctx: Ctx, replay: Option<J>) -> ! {
     }
     for c in &cases {
       let m = c["m"].as_u64().unwrap_or(1) as usize - 1;
-      let model = &models[m];
-      match apply(&model.xml, &model.nodes, &c["ops"]) {
-        Some(text) => {
-          recs.push(json!({"src": "script", "m": m + 1, "ops": c["ops"], "count": count_nodes(&text), "model": model.path}));
-          texts.push(text);
-        }
-        None => tool_error(&format!("cannot apply {} to {}", c["ops"], model.path)),
-      }
+      recs.push(json!({"src": "script", "m": m + 1, "ops": c["ops"], "model": models[m].path}));
     }
     ctx.cov("fault_scripts", json!(recs.len()));
     // the unfaulted models themselves
     for (m, model) in models.iter().enumerate() {
-      recs.push(json!({"src": "bytes", "m": m + 1, "ops": [], "count": model.nodes.len(), "model": model.path}));
-      texts.push(model.xml.clone());
+      recs.push(json!({"src": "bytes", "m": m + 1, "ops": [], "seed": 0, "model": model.path}));
     }
-    // random character-level corruption
+    // random character-level corruption (each record carries the seed of its own corruption)
     let mut rng = Rng::new(ctx.seed);
-    for _ in 0..(if quick { 3000 } else { 40000 }) {
-      let m = rng.below(models.len() as u64) as usize;
-      let mut chars: Vec<char> = models[m].xml.chars().collect();
-      for _ in 0..(1 + rng.below(3)) {
-        if chars.is_empty() {
-          break;
-        }
-        let i = rng.below(chars.len() as u64) as usize;
-        match rng.below(5) {
-          0 => {
-            chars.remove(i);
-          }
-          1 => chars.insert(i, *rng.pick(&['<', '>', '/', '"', '&', '=', ' ', '\u{0}', '\u{FFFF}', 'x'])),
-          2 => chars[i] = *rng.pick(&['<', '>', '/', '"', '&', '=', ' ', '\u{1F600}', '0', '-']),
-          3 => chars.truncate(i),
-          _ => {
-            let j = rng.below(chars.len() as u64) as usize;
-            let (a, b) = (i.min(j), i.max(j));
-            if b - a < 400 {
-              chars.drain(a..b);
-            }
-          }
-        }
-      }
-      recs.push(json!({"src": "bytes", "m": m + 1, "ops": [], "count": 0, "model": models[m].path}));
-      texts.push(chars.into_iter().collect());
+    let small: Vec<usize> = (0..models.len()).filter(|m| models[*m].xml.len() < 60_000).collect();
+    for _ in 0..(if quick { 3000 } else { 30000 }) {
+      let m = *rng.pick(&small);
+      recs.push(json!({"src": "bytes", "m": m + 1, "ops": [], "seed": rng.next() | 1, "model": models[m].path}));
     }
   }
   let by_path: BTreeMap<&str, &Model> = models.iter().map(|m| (m.path.as_str(), m)).collect();
-  let inputs: Vec<J> = recs
-    .iter()
-    .zip(texts.iter())
-    .map(|(r, t)| {
-      let model = by_path.get(r["model"].as_str().unwrap_or(""));
-      let mut names = model.map(|m| m.names.clone()).unwrap_or_default();
-      if let Some(nodes) = dump(t) {
-        for n in invocable_names(&nodes, t) {
-          if !names.contains(&n) {
-            names.push(n);
+  // the text of a record: the fault script applied, or the seeded corruption, or the replayed text
+  let text_of = |r: &J| -> String {
+    if let Some(x) = r["xml"].as_str() {
+      return x.to_string();
+    }
+    let model = &models[r["m"].as_u64().unwrap_or(1) as usize - 1];
+    if r["src"] == "script" {
+      return apply(&model.xml, &model.nodes, &r["ops"]).unwrap_or_else(|| tool_error(&format!("cannot apply {} to {}", r["ops"], model.path)));
+    }
+    let seed = r["seed"].as_u64().unwrap_or(0);
+    if seed == 0 {
+      return model.xml.clone();
+    }
+    let mut rng = Rng::new(seed);
+    let mut chars: Vec<char> = model.xml.chars().collect();
+    for _ in 0..(1 + rng.below(3)) {
+      if chars.is_empty() {
+        break;
+      }
+      let i = rng.below(chars.len() as u64) as usize;
+      match rng.below(5) {
+        0 => {
+          chars.remove(i);
+        }
+        1 => chars.insert(i, *rng.pick(&['<', '>', '/', '"', '&', '=', ' ', '\u{0}', '\u{FFFF}', 'x'])),
+        2 => chars[i] = *rng.pick(&['<', '>', '/', '"', '&', '=', ' ', '\u{1F600}', '0', '-']),
+        3 => chars.truncate(i),
+        _ => {
+          let j = rng.below(chars.len() as u64) as usize;
+          let (a, b) = (i.min(j), i.max(j));
+          if b - a < 400 {
+            chars.drain(a..b);
           }
         }
       }
-      names.truncate(12);
-      json!({"xml": t, "ctxs": model.map(|m| m.ctxs.clone()).unwrap_or_else(|| vec!["{}".to_string()]), "names": names})
-    })
-    .collect();
-  let results = run_in_children("c12", &tlc.work_dir, &inputs, 14, Duration::from_secs(30));
+    }
+    chars.into_iter().collect()
+  };
+  let input_of = |r: &J| -> J {
+    let t = text_of(r);
+    let model = by_path.get(r["model"].as_str().unwrap_or(""));
+    let mut names = model.map(|m| m.names.clone()).unwrap_or_default();
+    let mut count = -1i64;
+    if let Some(nodes) = dump(&t) {
+      count = nodes.len() as i64;
+      for n in invocable_names(&nodes, &t) {
+        if !names.contains(&n) {
+          names.push(n);
+        }
+      }
+    }
+    names.truncate(12);
+    json!({"xml": t, "ctxs": model.map(|m| m.ctxs.clone()).unwrap_or_else(|| vec!["{}".to_string()]), "names": names, "count": count})
+  };
+  let results = {
+    let recs = &recs;
+    crate::child::run_in_children_with("c12", &tlc.work_dir, recs.len(), 14, Duration::from_secs(30), &|i| input_of(&recs[i]))
+  };
   let mut calls = 0u64;
   for (r, res) in recs.iter_mut().zip(results.iter()) {
+    r["count"] = if res["count"].is_i64() { res["count"].clone() } else { json!(count_nodes(&text_of(r))) };
     if let Some(d) = res["death"].as_str() {
       r["death"] = json!(d);
       r["load"] = json!("error");
@@ -416,11 +425,11 @@ pub fn check(mut ctx: Ctx, replay: Option<J>) -> ! {
   }
   // localise process deaths: which stage / invocable kills the child
   let dead: Vec<usize> = (0..recs.len()).filter(|i| recs[*i]["death"] != "").collect();
-  if !dead.is_empty() && dead.len() <= 4000 {
+  if !dead.is_empty() && dead.len() <= 1500 {
     let mut sub_inputs = vec![];
     let mut owner = vec![];
     for i in &dead {
-      let inp = &inputs[*i];
+      let inp = input_of(&recs[*i]);
       sub_inputs.push(json!({"xml": inp["xml"], "ctxs": [], "names": []}));
       owner.push((*i, "(build)".to_string()));
       for name in inp["names"].as_array().cloned().unwrap_or_default() {
@@ -482,7 +491,7 @@ pub fn check(mut ctx: Ctx, replay: Option<J>) -> ! {
     }
     let first = r["panics"].get(0).map(|p| format!("{}: {}", p["stage"].as_str().unwrap_or(""), p["msg"].as_str().unwrap_or(""))).unwrap_or_else(|| r["death"].as_str().unwrap_or("").to_string());
     let mut keep = r.clone();
-    keep["xml"] = json!(texts[*i]);
+    keep["xml"] = json!(text_of(r));
     for sig in &sigs {
       ctx.reject(std::slice::from_ref(sig), json!({"record": keep}), &format!("{} : {} : {} {} [{}]", why, first, r["model"].as_str().unwrap_or("").trim_start_matches("/repo/examples/src/"), r["ops"], sig));
     }
